@@ -126,6 +126,22 @@ def gen_contract_vcs(q, carve_outs=()):
             raise Demoted(f"contract parameter {p} has no type")
         binding[p] = ctx.fresh("p_" + p, parse_ty(ann))
     st0 = State(env=dict(binding))
+    # parameters are allocated objects; converters' record lists hold allocated records
+    from .symex import VRef, VList, VOpt
+    from .smt import ForAll, Implies, And, Le, Lt, Int, Select
+    for p_, v_ in binding.items():
+        vv = v_.val if isinstance(v_, VOpt) else v_
+        if isinstance(vv, VRef):
+            st0 = st0.assume(Implies(Not(v_.isnone), st0.is_alloc(ctx, vv)) if isinstance(v_, VOpt) else st0.is_alloc(ctx, vv))
+        elif isinstance(vv, VList) and vv.ety in REF_SORT:
+            i_ = ctx.bvar("i", "Int")
+            st0 = st0.assume(ForAll([i_], Implies(And(Le(Int(0), i_), Lt(i_, vv.n)), st0.is_alloc(ctx, vv.at(i_)))))
+    cb = ctx.bvar("c", "Conv")
+    ib = ctx.bvar("i", "Int")
+    recs_of = ctx.wrap(Select(st0.harr(ctx, "Converter", "records"), cb), ("list", "Record"))
+    st0 = st0.assume(ForAll([cb, ib], Implies(And(Select(st0.alloc_arr(ctx, "Converter"), cb), Le(Int(0), ib), Lt(ib, recs_of.n)),
+                                             Select(st0.alloc_arr(ctx, "Record"), recs_of.at(ib).t))))
+    eng.cur_class = cls
     eng.cur_func = q
     eng.cur_func_node = fnode
     eng.loop_counter = 0
@@ -154,14 +170,18 @@ def gen_contract_vcs(q, carve_outs=()):
             p2 = eng.contract_parts(q, binding, s1, result=v, pre_state=st0)
             for t, src in p2["ensures"]:
                 ctx.oblige(f"{where}:ensures {src}", "postcondition", s1.pc, t, where)
-            if parts["pure"]:
-                for key, arr in s1.heap.items():
-                    if key in st0.heap and st0.heap[key].s != arr.s:
-                        ctx.oblige(f"{where}:pure: heap field {key} unchanged", "frame", s1.pc, Eq(st0.heap[key], arr), where)
+            locs = [] if parts["pure"] else eng.modifies_locations(q, binding, st0)
+            for fname, cond in eng.frame_condition(locs, st0, s1):
+                ctx.oblige(f"{where}:frame: only modifies(...) locations of {fname} change", "frame", s1.pc, cond, where)
             canary_paths.append(s1)
         elif o.kind == "raise":
             allowed = [when for names, when, src in parts["raises"] if any(repo.subclass(o.exc, n) for n in names)]
+            if any(repo.subclass(o.exc, n) for n in parts.get("may_raise", ())):
+                allowed.append(TRUE)
             ctx.oblige(f"{where}:raise {o.exc} admitted by a raises-clause", "exceptional-exit", s1.pc, Or(*allowed), where)
+            if parts["pure"] or any(u for *_x, u in parts.get("raises_unchanged", [])):
+                for fname, cond in eng.frame_condition([], st0, s1):
+                    ctx.oblige(f"{where}:rejected call leaves {fname} unchanged", "frame", s1.pc, cond, where)
         else:
             raise Demoted(f"{o.kind} outside a loop")
     return repo, ctx, eng, pre, canary_paths, n_paths
